@@ -139,7 +139,16 @@ DollarOut(v, eager) == IF eager /\ v.cls # "dollarop" THEN Out(v, "hash") ELSE K
 (* redactPipelineStage (mutually recursive)                                *)
 (***************************************************************************)
 RECURSIVE redactQueryValues(_, _, _, _, _, _), redactArrayValuesWithKey(_, _, _, _, _, _, _),
-          redactPipelineStage(_, _, _, _, _)
+          redactPipelineStage(_, _, _, _, _), redactOperandList(_, _, _, _, _)
+
+redactNamespaceDocument(ns) ==
+  Obj([i \in 1..Len(ns.kv) |->
+        IF IsStr(ns.kv[i][2]) /\ ns.kv[i][1] \in {"db", "coll"}
+        THEN <<ns.kv[i][1], Out(ns.kv[i][2], "hash"), FALSE>>
+        ELSE <<ns.kv[i][1], Keep(ns.kv[i][2]), FALSE>>])
+
+\* the short forms {$out: "coll"} and {$unionWith: "coll"} (fix 8722afe)
+stageNamespaceString(c, k, v) == c.ns /\ k \in {"$out", "$unionWith", "$merge"} /\ IsStr(v)
 
 redactQueryValues(c, obj, eager, search, parentCoreOp, kp) ==
   Obj([i \in 1..Len(obj.kv) |->
@@ -151,7 +160,11 @@ redactQueryValues(c, obj, eager, search, parentCoreOp, kp) ==
                 ELSE (IF k \in DOMAIN CoreOperators.m THEN Found(CoreOperators.m[k]) ELSE NotFound)
         coreOp == look.v
     IN << k,
-          CASE v.t = "obj"  -> redactQueryValues(c, v, eager, search, coreOp, nkp)
+          CASE stageNamespaceString(c, k, v) -> Out(v, "hash")
+            \* stages of sub-pipelines come through the query walker: their collection arguments are namespaces (fix 8722afe)
+            [] c.ns /\ look.ok /\ coreOp = NS /\ IsStr(v)    -> Out(v, "hash")
+            [] c.ns /\ look.ok /\ coreOp = NS /\ v.t = "obj" -> redactNamespaceDocument(v)
+            [] v.t = "obj"  -> redactQueryValues(c, v, eager, search, coreOp, nkp)
             [] v.t = "arr"  -> redactArrayValuesWithKey(c, k, v, eager, search,
                                                         isRedactableFieldPatternInArray(c, v), nkp)
             [] v.t = "null" -> Keep(v)
@@ -192,11 +205,6 @@ redactExpressionArgument(c, key, v, kp, search) ==
          [] v.t = "arr" -> redactArrayValues(c, v, FALSE, search, isRedactableFieldPatternInArray(c, v), kp)
          [] OTHER       -> Keep(v)
 
-redactNamespaceDocument(ns) ==
-  Obj([i \in 1..Len(ns.kv) |->
-        IF IsStr(ns.kv[i][2]) /\ ns.kv[i][1] \in {"db", "coll"}
-        THEN <<ns.kv[i][1], Out(ns.kv[i][2], "hash"), FALSE>>
-        ELSE <<ns.kv[i][1], Keep(ns.kv[i][2]), FALSE>>])
 
 \* the tail of the per-key loop of redactPipelineStage (no special operator type applied)
 StageGeneric(c, v, eager, nkp, search) ==
@@ -234,7 +242,7 @@ StageSubMap(c, k, v, meta, eager, nkp, search) ==
             FALSE >>
     ELSE IF sm = E THEN << sk, Keep(sv), FALSE >>
     ELSE IF sm = OA /\ sv.t = "arr" THEN    \* (a single operand without the array: redacted like any other value, below)
-         << sk, Arr([e \in 1..Len(sv.it) |-> redactPipelineStage(c, sv.it[e], eager, nkp, search)]), FALSE >>
+         << sk, redactOperandList(c, sv, eager, nkp, search), FALSE >>
     ELSE IF sm = P THEN
          << sk,
             IF sv.t = "arr" THEN redactArrayValues(c, sv, eager, search, isRedactableFieldPatternInArray(c, sv), nkp)
@@ -260,7 +268,8 @@ redactPipelineStage(c, stage, eager, kp, search) ==
         hk    == eager /\ ~op.ok
         meta  == IF op.ok /\ search /\ meta0.tag = "tab" /\ v.t = "obj" THEN augmentOp(c, meta0, v) ELSE meta0
     IN
-    IF meta = FN THEN
+    IF stageNamespaceString(c, k, v) THEN << k, Out(v, "hash"), FALSE >>
+    ELSE IF meta = FN THEN
          << k,
             IF eager
             THEN CASE IsStr(v)     -> IF Len(kp) > 0 \/ StrIsOp(v, search) THEN Keep(v) ELSE Out(v, "hash")
@@ -285,9 +294,15 @@ redactPipelineStage(c, stage, eager, kp, search) ==
               [] OTHER       -> Keep(v),
             hk >>
     ELSE IF meta = OA /\ v.t = "arr" THEN
-         << k, Arr([e \in 1..Len(v.it) |-> redactPipelineStage(c, v.it[e], eager, nkp, search)]), hk >>
+         << k, redactOperandList(c, v, eager, nkp, search), hk >>
     ELSE IF meta.tag = "tab" /\ v.t = "obj" THEN << k, StageSubMap(c, k, v, meta, eager, nkp, search), hk >>
     ELSE << k, StageGeneric(c, v, eager, nkp, search), hk >>])
+
+\* operands of $and / $or / must / should: documents and arrays as stages, bare literals like the literals of any array (fix 8e6f334)
+redactOperandList(c, arr, eager, kp, search) ==
+  Arr([e \in 1..Len(arr.it) |->
+        IF arr.it[e].t \in {"obj", "arr"} THEN redactPipelineStage(c, arr.it[e], eager, kp, search)
+        ELSE redactArrayValues(c, Arr(<<arr.it[e]>>), eager, search, FALSE, kp).it[1]])
 
 (***************************************************************************)
 (* anonymizer.go: redactCommand, redactUpdatePipeline, redactNamespace     *)
